@@ -4,7 +4,7 @@
 From Coq Require Import ZArith List Bool.
 From CiwV Require Import Sx Prelude.
 From CiwV.Engine Require Import State2 Engine2 Codec2.
-From CiwV.Inv Require Conserve2 Sched2 Preempt2 Renege2 Route2 Samples2 Blocking2 Servers2 Clock2 HorizonCount2 Journey2 Horizon2 Clock2r Inversion2 Journey2s Slot2 Journey2r DateSum2 Knot2 Clock2p TrackerInc2.
+From CiwV.Inv Require Conserve2 Sched2 Preempt2 Renege2 Route2 Samples2 Blocking2 Servers2 Clock2 HorizonCount2 Journey2 Horizon2 Clock2r Inversion2 Journey2s Slot2 Journey2r DateSum2 Knot2 Clock2p TrackerInc2 Clock2s TrackerInc2b.
 Import ListNotations.
 Open Scope Z_scope.
 
@@ -26,7 +26,8 @@ Definition invs2_b (cf : config) (s : sim) : list bool :=
     negb (Clock2r.scope_r_partial cf) || Clock2r.clk2r_b cf s;
     negb (Inversion2.inv_scope cf) || Inversion2.invj_b cf s;
     Slot2.slot_inv_b cf s && Slot2.slot_next_b cf s;
-    negb (Clock2p.tiny cf && forallb (fun nd => negb (nd_inf nd)) (nodes s)) || Clock2p.clk2pt_b cf s ].               (* C12, slots: next slot at slotdate k, never overdue, a slot event runs at its date; every configuration *)      (* C11: no priority inversion at pre-emptive nodes (scope: Inversion2.inv_scope) *)    (* C02 with the resume option of pre-emptive capacitated slots (no capacities): Clock2r *)                                     (* C14: the four counts are ordered (completed <= finished <= arrived, accepted <= arrived) *)   (* C05: nobody waits while an on-duty server idles *)              (* C07 / C06: counter = length; in their scopes: nobody blocked while there is space, population <= capacity *)                  (* C09: the hypotheses of the routing theorems hold of the configuration *)              (* C13: reneging dates (scope: no pre-emption of any kind) *)
+    negb (Clock2p.tiny cf && forallb (fun nd => negb (nd_inf nd)) (nodes s)) || Clock2p.clk2pt_b cf s;
+    negb (Clock2s.scope_s cf) || Clock2s.clk2s_b cf s ].               (* C12, slots: next slot at slotdate k, never overdue, a slot event runs at its date; every configuration *)      (* C11: no priority inversion at pre-emptive nodes (scope: Inversion2.inv_scope) *)    (* C02 with the resume option of pre-emptive capacitated slots (no capacities): Clock2r *)                                     (* C14: the four counts are ordered (completed <= finished <= arrived, accepted <= arrived) *)   (* C05: nobody waits while an on-duty server idles *)              (* C07 / C06: counter = length; in their scopes: nobody blocked while there is space, population <= capacity *)                  (* C09: the hypotheses of the routing theorems hold of the configuration *)              (* C13: reneging dates (scope: no pre-emption of any kind) *)
 
 Definition run_invs2 (inp : sx) : sx :=
   match inp with
@@ -38,7 +39,7 @@ Definition run_invs2 (inp : sx) : sx :=
   | _ => A (-1)
   end.
 
-Theorem invs2_b_sound cf s : invs2_b cf s = [true; true; true; true; true; true; true; true; true; true; true; true; true; true; true; true] ->
+Theorem invs2_b_sound cf s : invs2_b cf s = [true; true; true; true; true; true; true; true; true; true; true; true; true; true; true; true; true] ->
   Conserve2.WFx2 [] s /\ Sched2.SchedInv cf s /\ Sched2.NextInv cf s /\
   Samples2.SvcInv s /\ (Renege2.nopre cf = true -> Renege2.RenInv cf s) /\
   Route2.PrioInv cf s /\ Route2.routing_ok cf /\ Route2.ccm_ok cf /\
@@ -48,9 +49,10 @@ Theorem invs2_b_sound cf s : invs2_b cf s = [true; true; true; true; true; true;
   (Clock2r.scope_r_partial cf = true -> Clock2r.Clk2r cf s) /\
   (Inversion2.inv_scope cf = true -> Inversion2.InvJ cf s) /\
   Slot2.SlotInv cf s /\ Slot2.SlotNext cf s /\
-  (Clock2p.tiny cf = true -> forallb (fun nd => negb (nd_inf nd)) (nodes s) = true -> Clock2p.Clk2pt cf s).
+  (Clock2p.tiny cf = true -> forallb (fun nd => negb (nd_inf nd)) (nodes s) = true -> Clock2p.Clk2pt cf s) /\
+  (Clock2s.scope_s cf = true -> Clock2s.Clk2s cf s).
 Proof.
-  unfold invs2_b. intros H. injection H as H1 H2 H3 H4 H5 H6 H7 H9 H10 H11 H12 H13 H14 H15 H16 H18.
+  unfold invs2_b. intros H. injection H as H1 H2 H3 H4 H5 H6 H7 H9 H10 H11 H12 H13 H14 H15 H16 H18 H19.
   split; [apply Conserve2.wfx2_b_sound; exact H1|]. split; [apply Sched2.sched_inv_b_sound; exact H2|]. split; [apply Sched2.next_inv_b_sound; exact H3|].
   split; [apply Samples2.SvcInv_b_sound; exact H4|].
   split; [intros Hs; rewrite Hs in H5; cbn in H5; apply Renege2.RenInv_b_sound; exact H5|].
@@ -69,7 +71,8 @@ Proof.
   apply andb_true_iff in H16 as [H16 H17].
   split; [intros Hs; rewrite Hs in H15; cbn in H15; apply Inversion2.invj_b_sound; exact H15|].
   split; [apply Slot2.slot_inv_b_sound; exact H16|]. split; [apply Slot2.slot_next_b_sound; exact H17|].
-  intros Ht Hi. rewrite Ht, Hi in H18. cbn in H18. apply Clock2p.clk2pt_b_sound. exact H18.
+  split; [intros Ht Hi; rewrite Ht, Hi in H18; cbn in H18; apply Clock2p.clk2pt_b_sound; exact H18|].
+  intros Hs. rewrite Hs in H19. cbn in H19. apply Clock2s.clk2s_b_sound. exact H19.
 Qed.
 Print Assumptions invs2_b_sound.
 
@@ -134,7 +137,7 @@ Definition run_knot2 (inp : sx) : sx :=
 (* C17 on stage 2 (dispatch_model 45): the tracker calls the STAGE-2 ENGINE MODEL says one event makes (TrackerInc2.calls_event_step, the ghost
    call list the theorems of TrackerInc2.v fold the incremental updates over), for comparison with the calls the real engine makes to its
    tracker in that event; plus the invariant Idx and the hypotheses of the NaiveBlocking theorem on the real snapshot:
-   L [cfg; state; draws] -> L [idx2_b; scope_int && noint2_b && nextunbl_b; L calls] *)
+   L [cfg; state; draws] -> L [idx2_b; scope_int && noint2_b && nextunbl_b; L calls; scope_nb -> tinvs_b; scope_nb] *)
 Definition enc_call2 (c : TrackerInc2.call) : sx :=
   match c with
   | TrackerInc2.Acc j k => L [A 0; A j; A k]
@@ -147,7 +150,9 @@ Definition run_calls2 (inp : sx) : sx :=
   | L [c; s; d] =>
     match dec_cfg c, dec_sim s d with
     | Some cf, Some st => L [bit (TrackerInc2.idx2_b st); bit (TrackerInc2.scope_int cf && TrackerInc2.noint2_b st && TrackerInc2.nextunbl_b st);
-                             L (map enc_call2 (TrackerInc2.calls_event_step cf st))]
+                             L (map enc_call2 (TrackerInc2.calls_event_step cf st));
+                             (* TrackerInc2b: inside scope_nb every unblocked customer has previous_class = customer_class (TInvS, the NodeClassMatrix invariant) *)
+                             bit (negb (TrackerInc2b.scope_nb cf) || TrackerInc2b.tinvs_b st); bit (TrackerInc2b.scope_nb cf)]
     | _, _ => A (-1)
     end
   | _ => A (-1)
